@@ -118,26 +118,32 @@ CHECKS = {
         'on the documented criteria. Stationarity and global minimality are NOT decided.'),
   note=TB),
  'C13': dict(
-  technique='static analysis: dependence sets at the graphical-lasso call site (which element of the prior pair, which hyper-parameters, labels), dominance of the result vetting over the store of components_, exception-class resolution',
+  technique='static analysis: path-forking dependence sets at the graphical-lasso call site (which element of the prior pair, which hyper-parameters, labels), dominance of the solver call and of the result vetting over the store of components_, exception-class resolution, exact-form rule on the vetting predicate and the empirical matrix',
   text=('Decides: the solver input depends on the INVERSE prior (element 1 of the (M, M^-1) pair requested with return_inverse=True, '
         'strict_pd=True for self.prior), on balance_param, on the pair differences and on the labels; alpha is self.sparsity_param; '
         'components_ is stored only after the test on raised_error / negative eigenvalue / non-finite entries of the result, whose other '
-        'branch raises RuntimeError. That the solver output minimises the objective is NOT decided.'),
+        'branch raises RuntimeError; the solver call dominates that store on every path and its handler catches Exception (not a '
+        'narrower class) while recording the error; the vetting predicate has exactly the three documented disjuncts; the empirical '
+        'matrix is X^T L X built from the pair differences and labels in the documented form. That the solver output minimises the objective is NOT decided.'),
   note=TB),
  'C14': dict(
-  technique='static analysis: who-may-write on the best iterate, guard normalisation (error2 < eps), symbolic spectral form of the PSD clip, statement-order rule for the budget, sign algebra on the diagonal candidates, must-follow rule for assert_all_finite',
+  technique='static analysis: who-may-write on the best iterate, guard normalisation (error2 < eps), symbolic spectral form of the PSD clip, statement-order rule for the budget, per-cycle reset rule, exact rational-function comparison of the projection formulas, sign algebra on the diagonal candidates, must-follow rule for assert_all_finite, no-write rule on hyper-parameters',
   text=('Decides: MMC returns A_old, written only as a copy of the initial matrix or by A_old[:] = A under `satisfy`, which is set only '
         'under error2 < eps directly after the PSD clip V Diag(max(0,l)) V^T; the iterations start from self.init and the budget is one '
         'hundredth of w.A computed before any update; in the diagonal variant every candidate is np.maximum(0, .) and A_ = diag(w); '
-        'every objective evaluation is followed by assert_all_finite. That the budget is met numerically is NOT decided.'),
+        'every objective evaluation is followed by assert_all_finite; the `satisfy` flag is reset at the start of every projection cycle; '
+        'the projection onto the budget hyperplane and the half-space step equal the documented formulas as exact rational functions; '
+        'no hyper-parameter is reassigned. That the budget is met numerically is NOT decided.'),
   note=TB),
  'C15': dict(
-  technique='static analysis: sign algebra over the weight update, symbolic matrix-algebra evaluation of _components_from_basis_weights, guard normalisation of the checkpoint, value-flow of normalize(), shared definite-assignment and RNG rules',
+  technique='static analysis: sign algebra over the weight update, symbolic matrix-algebra evaluation of _components_from_basis_weights, guard normalisation of the checkpoint, value-flow of normalize(), exact rational-function comparison of the dual-averaging step, loop-exit rule, shared definite-assignment, RNG and hyper-parameter rules',
   text=('Decides under gamma > 0: every assignment to the SCML weights is non-negative (negative scale times np.minimum(.,0)); both '
         'branches of _components_from_basis_weights give L^T L = B^T Diag(w) B over the active rows, the low-rank one with a warning; '
         'best_w changes only under obj < best_obj together with best_obj; LDA basis rows pass through normalize; every basis option path '
-        'is executable and all randomness comes from check_random_state(self.random_state). Equality with the documented dual-averaging '
-        'iterates for a seed is NOT decided.'),
+        'is executable and all randomness comes from check_random_state(self.random_state); the low-rank branch is taken exactly when '
+        'fewer active bases than features remain; the dual-averaging step (average gradient, proximal step with gamma, step size) equals '
+        'the documented formula as an exact rational function; the loop has no exit other than max_iter; no hyper-parameter is reassigned. '
+        'Equality of the iterates with a reference run for a seed is NOT decided.'),
   note=TB + ' Hyper-parameter ranges of the property quantifier (gamma > 0, max_iter >= output_iter >= 1).'),
  'C17': dict(
   technique='static analysis: ownership/aliasing abstract interpretation (FRESH: view- vs copy-producing operations) of every in-place write construct, who-may-call / value-flow rule for random generators and seeded components, typestate (read-before-assign of fitted attributes, conditional assignment), transitive effect sets of query methods, closure free-variable freshness',
